@@ -147,7 +147,7 @@ func TestC07PreMockValues(t *testing.T) {
 	}
 	for _, p := range pre {
 		for _, form := range []string{"Apply", "As.Return"} {
-			for _, end := range []string{"Reset", "Reset twice"} {
+			for _, end := range []string{"Reset", "Reset twice", "assigned while mocked, then Reset", "copy of another mocked variable, then Reset"} {
 				v := p.val
 				before := *(*[2]uintptr)(unsafe.Pointer(&v))
 				b := mocker.Create()
@@ -161,6 +161,19 @@ func TestC07PreMockValues(t *testing.T) {
 				rep.Eval(2)
 				if got := v.Get("x"); got != 77 {
 					rep.Violate("C07/mocked-method-not-reached", fmt.Sprintf("variable holding %s before the mock, %s: Get = %d want 77", p.name, form, got), c)
+				}
+				switch end {
+				case "assigned while mocked, then Reset":
+					// the program puts something else into the variable while it is mocked: Reset still puts back what the
+					// variable held before the mock
+					v = &keptImpl{n: 31}
+				case "copy of another mocked variable, then Reset":
+					var other keptSvc
+					b.Interface(&other).Method("Get").Apply(func(ctx *mocker.IContext, k string) int { return 78 })
+					v = other
+					if got := v.Get("x"); got != 78 {
+						rep.Violate("C07/mocked-method-not-reached", fmt.Sprintf("a copy of another mocked variable: Get = %d want 78", got), c)
+					}
 				}
 				b.Reset()
 				if end == "Reset twice" {
